@@ -229,4 +229,82 @@ def gen_load(tier, rng):
         shutil.rmtree(tmp, ignore_errors=True)
 
 
-GENS = {'PersistentMixin.__save_params': gen_save, 'PersistentMixin.loadPersistentData': gen_load}
+def _prec_class():
+    from frappy.modules import Module
+    from frappy.persistent import PersistentMixin, PersistentParam
+    from frappy.datatypes import FloatRange, IntRange, StringType, BoolType, EnumType
+
+    class Mod(PersistentMixin, Module):
+        hw = PersistentParam('written to hardware', FloatRange(0, 10), default=1.0)
+        soft = PersistentParam('software only', FloatRange(0, 10), default=2.0)
+        label = PersistentParam('software only', StringType(), default='dflt')
+        turns = PersistentParam('software only', IntRange(0, 9), default=3)
+        flag = PersistentParam('software only', BoolType(), default=False)
+        mode = PersistentParam('with write', EnumType(a=1, b=2), default=1)
+
+        def write_hw(self, value):
+            return value
+
+        def write_mode(self, value):
+            return value
+    return Mod
+
+
+def gen_precedence(tier, rng):
+    """6 persistent parameters (2 with, 4 without write method) x every subset given in the configuration x stored file with valid /
+    invalid / missing entries: the start value is the configured one, else the stored one when valid, else the default"""
+    import itertools
+    import types
+    from bounded import nodelib
+    from frappy.lib import generalConfig
+    from frappy.config import Param
+    names = ['hw', 'soft', 'label', 'turns', 'flag', 'mode']
+    cfgvals = dict(hw=4.5, soft=5.5, label='cfg', turns=7, flag=True, mode=2)
+    stored_sets = [dict(hw=7.0, soft=8.0, label='stored', turns=5, flag=True, mode=2),
+                   dict(hw=70.0, soft='x', label=5, turns=99, flag='maybe', mode=9),      # all invalid for the datatypes
+                   dict(soft=8.5, turns=1), {}]
+    defaults = dict(hw=1.0, soft=2.0, label='dflt', turns=3, flag=False, mode=1)
+    subsets = [c for n in range(0, 7) for c in itertools.combinations(names, n)]
+    if tier == 'quick':
+        subsets = rng.sample(subsets, 20)
+    for given in subsets:
+        for stored in stored_sets:
+            tmp = tempfile.mkdtemp(prefix='verif-prec-')
+            try:
+                generalConfig.logdir = Path(tmp)
+                os.makedirs(os.path.join(tmp, 'persistent'), exist_ok=True)
+                Mod = _prec_class()
+                # what a previous run stored: exported values
+                exported = {}
+                for k, v in stored.items():
+                    dt = Mod.accessibles[k].datatype
+                    try:
+                        exported[k] = dt.export_value(dt.validate(v))
+                    except Exception:
+                        exported[k] = v
+                with open(os.path.join(tmp, 'persistent', 'verif.m.json'), 'w', encoding='utf-8') as f:
+                    json.dump(exported, f)
+                expected, expect_write = {}, {}
+                for k in names:
+                    dt = Mod.accessibles[k].datatype
+                    if k in given:
+                        expected[k] = dt.validate(cfgvals[k])
+                    else:
+                        try:
+                            expected[k] = dt.validate(dt.import_value(exported[k])) if k in exported else defaults[k]
+                        except Exception:
+                            expected[k] = dt.validate(defaults[k])
+                    expect_write[k] = k in ('hw', 'mode')
+                srv = types.SimpleNamespace(dispatcher=types.SimpleNamespace(announce_update=lambda m, p: None),
+                                            secnode=types.SimpleNamespace(equipment_id='verif'))
+                obj = Mod.__new__(Mod)          # Module.__new__ creates the instance of the wrapper class
+                cfg = {k: Param(cfgvals[k]) for k in given}
+                cfg['description'] = ''
+                yield dict(label=f'cfg={sorted(given)} stored={stored}', self=obj,
+                           args={'name': 'm', 'logger': nodelib.quiet_logger(), 'cfgdict': cfg, 'srv': srv},
+                           ghosts={'expected': expected, 'expect_write': expect_write})
+            finally:
+                shutil.rmtree(tmp, ignore_errors=True)
+
+
+GENS = {'PersistentMixin.__init__': gen_precedence,'PersistentMixin.__save_params': gen_save, 'PersistentMixin.loadPersistentData': gen_load}
